@@ -233,7 +233,10 @@ static Error emit_gcinst(BaseEmitter* e, int arch, int v, const BaseMem& m) {
 struct AJmp { int target; Pfx pfx; bool x64_only; bool small; const char* name; };
 static const AJmp kAJmpX86[] = {
   {0, {0, 0, 0}, false, false, "jmp L0"}, {0, {OPT(kShortForm), 0, 0}, false, true, "short jmp L0"}, {1, {OPT(kLongForm), 0, 0}, false, false, "long jmp L1"},
-  {0, {OPT(kX86_Rex), 0, 0}, true, false, "rex jmp L0"}, {1, {0, 0, 2}, false, false, "jmp L1 ;comment"}, {-1, {0, 0, 0}, false, false, "jmp zax"}, {-1, {OPT(kX86_Rex), 0, 1}, true, false, "rex jmp zax ;comment"}};
+  {0, {OPT(kX86_Rex), 0, 0}, true, false, "rex jmp L0"}, {1, {0, 0, 2}, false, false, "jmp L1 ;comment"}, {-1, {0, 0, 0}, false, false, "jmp zax"}, {-1, {OPT(kX86_Rex), 0, 1}, true, false, "rex jmp zax ;comment"},
+  // added later (ops at the end of the alphabet): an extra register that only strict validation refuses
+  {1, {0, 1, 0}, false, false, "jmp L1 {k1} (validator only)"}};
+static const int kAJmpEarlyX86 = 7;
 static const AJmp kAJmpA64[] = {{0, {0, 0, 1}, false, true, "b L0 ;comment"}, {1, {OPT(kOverwrite), 0, 0}, false, false, "overwrite b L1"}, {-1, {0, 0, 0}, false, false, "br x1"}};
 static const AJmp& ajmp_of(int arch, int v) { return arch == AA64 ? kAJmpA64[v] : kAJmpX86[v]; }
 static InstId ajmp_inst(int arch, const AJmp& j) { return arch == AA64 ? InstId(j.target < 0 ? a64::Inst::kIdBr : a64::Inst::kIdB) : InstId(x86::Inst::kIdJmp); }
@@ -366,9 +369,11 @@ static void build_ops(int arch) {
   for (int v = 0; v < 3; v++) { snprintf(b, sizeof b, "inst [new_const(global,%s)]", kGConsts[v].name); V.push_back(OpDef{O_GCONST, v, 0, 0, b, v == 1}); }
   // Compiler only: emit_annotated_jump() (JumpNode with a JumpAnnotation that lists L0 and L1) with each prefix option
   { int nj = arch == AA64 ? int(sizeof kAJmpA64 / sizeof kAJmpA64[0]) : int(sizeof kAJmpX86 / sizeof kAJmpX86[0]);
+    if (arch != AA64) nj = kAJmpEarlyX86;
     for (int v = 0; v < nj; v++) { const AJmp& j = ajmp_of(arch, v); if (j.x64_only && arch != AX64) continue; V.push_back(OpDef{O_AJMP, v, 0, 0, std::string("annotated ") + j.name, j.small}); } }
   // instructions added later (validator-only refusals)
   for (size_t i = g_inst_late[arch]; i < g_inst[arch].size(); i++) V.push_back(OpDef{O_INST, int(i), 0, 0, g_inst[arch][i].name, g_inst[arch][i].small});
+  if (arch != AA64) for (int v = kAJmpEarlyX86; v < int(sizeof kAJmpX86 / sizeof kAJmpX86[0]); v++) V.push_back(OpDef{O_AJMP, v, 0, 0, std::string("annotated ") + kAJmpX86[v].name, false});
   // alignments outside the valid range (valid: 0, 1 or a power of two <= 64), every mode
   for (int m = 0; m < 3; m++) for (unsigned n : {24u, 128u, 256u, 264u, 4096u, 0x80000000u}) { snprintf(b, sizeof b, "align(%s,%u)", am[m], n); V.push_back(OpDef{O_ALIGN, m, int(n), 0, b, m == 0 && n == 264u}); }
 }
